@@ -223,6 +223,31 @@ Section Derived.
     intros s ps p Hs Hps Hp Ha. exact (stmt_allowed_admin_only ui db s ps p (H3 s Hs) Hps Hp Ha).
   Qed.
 
+  (* the same, unfolded to single required privileges: each is checked against ITS OWN target
+     database - the one it names, else the request's default - with nothing carried over from
+     other privileges or statements *)
+  Lemma exec_each_privilege_covered es secret salt cr hq po ss db reach st ex c' :
+    handle bcrypt_ok salted true secret (node_after es) salt (RQuery cr hq po ss db reach) = ((st, ex), c') ->
+    ex <> 0 -> c_users (node_after es) <> [] ->
+    exists cd ui, In cd (carried cr) /\ cred_valid bcrypt_ok (c_users (node_after es)) secret cd = Some ui /\
+      (u_admin ui = true \/
+       forall s, In s ss -> exists ps, s_privs s = Some ps /\
+         forall p, In p ps ->
+           rp_admin p = false /\
+           grant_covers (lookup_priv (u_privs ui) (if is_empty (rp_name p) then db else rp_name p)) (rp_priv p) = true).
+  Proof.
+    intros H Hex Hne.
+    destruct (exec_implies_authorized_query _ _ _ _ _ _ _ _ _ _ _ _ H Hex) as [[Hn _]|[_ [cd [ui [H1 [H2 H3]]]]]]; [contradiction|].
+    exists cd, ui. split; [exact H1|split; [exact H2|]].
+    destruct (u_admin ui) eqn:Ea; [left; reflexivity|right].
+    intros s Hs. specialize (H3 s Hs). unfold stmt_allowed in H3. rewrite Ea in H3. cbn [orb] in H3.
+    destruct (s_privs s) as [ps|]; [|discriminate]. exists ps. split; [reflexivity|].
+    intros p Hp. pose proof (forallb_In _ _ H3 p Hp) as Hpa.
+    unfold priv_allowed, target in Hpa. rewrite Ea in Hpa. cbn [orb] in Hpa.
+    apply andb_true_iff in Hpa. destruct Hpa as [Hna Hg]. split; [|exact Hg].
+    destruct (rp_admin p); [discriminate|reflexivity].
+  Qed.
+
   (* no users: the middleware lets everything through un-authenticated and AuthorizeQuery
      looks at the first statement only *)
   Lemma bootstrap_query_lemma secret c salt cr ss db reach :
